@@ -14,24 +14,68 @@ open Burrow Burrow.Http Burrow.Generated
 
 /-- **Non-interference, per handler**: replace the configuration by one with the same keys that
     differs only in password values — every handler returns the same response and the same world,
-    for every backend, world, handler and path parameters (incl. dotted names that reach into other
-    parts of the configuration). -/
-theorem handler_independent_of_passwords {W : Type} (be : Backend W) (cfg' : W → Cfg) (w : W)
+    for every backend, world, handler and path parameters (incl. dotted REQUEST names that reach into
+    other parts of the configuration).  `Plain`: no configured key (module or profile name) itself
+    contains a dot; without it the statement is false of the code — `dotted_module_leak_witness`. -/
+theorem handler_independent_of_passwords_partial {W : Type} (be : Backend W) (cfg' : W → Cfg) (w : W)
+    (hpl : (be.cfg w).Plain)
     (h : SameExceptPasswords (be.cfg w) (cfg' w)) (ps : Params) (hh : H) :
     handleH { be with cfg := cfg' } w ps hh = handleH be w ps hh :=
-  handleH_same be cfg' w h ps hh
+  handleH_same be cfg' w hpl h ps hh
 
 /-- **Non-interference, whole server**: for every method and path the response is the same. -/
-theorem responses_independent_of_passwords {W : Type} (be : Backend W) (cfg' : W → Cfg) (w : W)
+theorem responses_independent_of_passwords_partial {W : Type} (be : Backend W) (cfg' : W → Cfg) (w : W)
+    (hpl : (be.cfg w).Plain)
     (h : SameExceptPasswords (be.cfg w) (cfg' w)) (routes : List Route) (method path : String) :
     respond routes { be with cfg := cfg' } w method path = respond routes be w method path := by
   unfold respond
   cases route routes method path with
-  | handler hn ps => exact handleH_same be cfg' w h ps (H.ofName hn)
+  | handler hn ps => exact handleH_same be cfg' w hpl h ps (H.ofName hn)
   | redirect _ _ => rfl
   | options _ => rfl
   | notAllowed _ => rfl
   | notFound => rfl
+
+/-- the configuration of the finding D20: notifier modules `a` and `"a.extras"`; the second one's
+    password is the parameter -/
+def leakCfg (pw : String) : Cfg :=
+  [(["notifier", "a", "class-name"], .str "http"), (["notifier", "a", "url-open"], .str "http://h/"),
+   (["notifier", "a.extras", "class-name"], .str "email"), (["notifier", "a.extras", "password"], .str pw)]
+
+/-- the `extra` map of a module detail response -/
+def extraOf (r : Resp) : Option FieldVal :=
+  match r.payload with
+  | .module fs => fs.lookup "extra"
+  | _ => none
+
+/-- **D20 (known finding).**  The full statement — for every configuration — is FALSE of the code: viper
+    resolves `notifier.a.extras` to the longest matching key, i.e. to the MODULE named `"a.extras"`, so
+    `GET /v3/config/notifier/a` shows that module's table, password included, as the `extra` map of
+    module `a`.  The two configurations below differ only in a password value and the responses differ.
+    (`notifierDetailAt c ["notifier", "a"]` is what `GET /v3/config/notifier/a` answers; replayed on the
+    real server by the `confhttp` stream, corpus `D20-…`.) -/
+theorem dotted_module_leak_witness :
+    SameExceptPasswords (leakCfg "hunter2") (leakCfg "correct horse") ∧
+    notifierDetailAt (leakCfg "hunter2") ["notifier", "a"] ≠ notifierDetailAt (leakCfg "correct horse") ["notifier", "a"] ∧
+    extraOf (notifierDetailAt (leakCfg "hunter2") ["notifier", "a"]) =
+      some (.m [("class-name", "email"), ("password", "hunter2")]) := by
+  have h1 : extraOf (notifierDetailAt (leakCfg "hunter2") ["notifier", "a"]) =
+      some (.m [("class-name", "email"), ("password", "hunter2")]) := by decide
+  have h2 : extraOf (notifierDetailAt (leakCfg "correct horse") ["notifier", "a"]) =
+      some (.m [("class-name", "email"), ("password", "correct horse")]) := by decide
+  refine ⟨⟨rfl, ?_⟩, ?_, h1⟩
+  · intro p hp
+    simp only [Cfg.get, leakCfg, List.lookup]
+    by_cases h1 : p = ["notifier", "a.extras", "password"]
+    · subst h1; simp [isPasswordPath] at hp
+    · have e1 : (p == ["notifier", "a.extras", "password"]) = false := by simpa using h1
+      simp [e1]
+  · intro heq
+    rw [heq, h2] at h1
+    exact absurd h1 (by decide)
+
+/-- … and `Plain` is exactly what that configuration lacks -/
+example : (leakCfg "x").plain = false := by decide
 
 /-- the scrape does not read the configuration at all -/
 theorem scrape_independent_of_configuration {W : Type} (be : Backend W) (cfg' : W → Cfg) (w : W) :
